@@ -8,6 +8,7 @@ use crate::common::*;
 use serde_json::{json, Value};
 use std::collections::VecDeque;
 use std::hash::{Hash, Hasher};
+use std::sync::atomic::AtomicU64;
 use std::time::Instant;
 
 #[derive(Clone, Copy, Debug, PartialEq, Eq, Hash)]
@@ -249,12 +250,78 @@ mod imp {
             seqs.fetch_add(n, std::sync::atomic::Ordering::Relaxed);
         });
         let unrolled = seqs.load(std::sync::atomic::Ordering::Relaxed);
+        // capacity sweep: the canonical fill-and-overflow history on capacities of every magnitude
+        // (a bound that only bites above some size is invisible to the small exhaustive models)
+        let t1 = Instant::now();
+        let mut caps_swept: Vec<usize> = vec![1, 2, 3, 4, 7, 8, 9, 100, 1000, 65_535, 65_536, 65_537, 1 << 20, (1 << 20) + 1, 3_000_000];
+        if tier == Tier::Thorough {
+            caps_swept.extend([(1 << 24) - 1, 1 << 24, 10_000_000, 20_000_001]);
+        }
+        let sweep_ops = AtomicU64::new(0);
+        par_map_fine(&caps_swept, |&cap| {
+            let r = guarded(|| {
+                let mut t = Table::new(cap);
+                let extra = 5usize;
+                let mut problems: Vec<String> = Vec::new();
+                for k in 0..(cap + extra) as u64 {
+                    t.put(k, k ^ 0x5555);
+                    let n = (k + 1) as usize;
+                    // judged at every power of two, around the capacity, and at the end
+                    if n.is_power_of_two() || n + 2 >= cap {
+                        let want = n.min(cap);
+                        if t.len() != want && problems.len() < 3 {
+                            problems.push(format!("after {} distinct puts len() = {} (capacity {}), expected {}", n, t.len(), cap, want));
+                        }
+                        if n <= cap && t.get(0) != Some(0x5555) && problems.len() < 3 {
+                            problems.push(format!("oldest key evicted after {} distinct puts although capacity is {}", n, cap));
+                        }
+                    }
+                }
+                for k in 0..(cap + extra) as u64 {
+                    if k < extra as u64 || k + 3 >= (cap + extra) as u64 || k.is_power_of_two() {
+                        let want = if k < extra as u64 { None } else { Some(k ^ 0x5555) };
+                        if t.get(k) != want && problems.len() < 3 {
+                            problems.push(format!("capacity {}: after {} distinct puts get({}) = {:?}, expected {:?}", cap, cap + extra, k, t.get(k), want));
+                        }
+                    }
+                }
+                let lf = t.load_factor();
+                if (lf - 1.0).abs() > 1e-6 && problems.len() < 3 {
+                    problems.push(format!("capacity {}: full table reports load factor {}", cap, lf));
+                }
+                // overwrite of present keys in the full table must not evict, clear empties
+                let (q0, _) = t.snapshot();
+                let oldest = q0.first().copied().unwrap_or(0);
+                let newest = (cap + extra - 1) as u64;
+                t.put(oldest, 1);
+                t.put(newest, 2);
+                if t.len() != cap || t.get(oldest) != Some(if oldest == newest { 2 } else { 1 }) || t.get(newest) != Some(2) {
+                    problems.push(format!("capacity {}: overwriting present keys in a full table changed its contents (len {})", cap, t.len()));
+                }
+                t.clear();
+                if t.len() != 0 || t.get(oldest).is_some() {
+                    problems.push(format!("capacity {}: clear left entries", cap));
+                }
+                problems
+            });
+            sweep_ops.fetch_add((2 * (cap + 5)) as u64, std::sync::atomic::Ordering::Relaxed);
+            match r {
+                Ok(problems) => {
+                    for pr in problems {
+                        let mag = if cap > (1 << 20) { "above_2^20" } else if cap > 65_536 { "above_2^16" } else { "small" };
+                        rep.report(format!("capacity_sweep:{}:{}", pr.split(' ').take(2).collect::<Vec<_>>().join("_"), mag), json!({"kind": "capacity_sweep", "capacity": cap, "problem": pr}));
+                    }
+                }
+                Err(m) => rep.report("panic:capacity_sweep".to_string(), json!({"kind": "capacity_sweep", "capacity": cap, "panic": m})),
+            }
+        });
         let mut cov = Coverage::new();
         cov.states = states;
         cov.transitions = transitions + unrolled;
         cov.traces_validated = cov.transitions;
         cov.exhaustive = true;
         cov.set("stateright_bfs", json!(per_cap));
+        cov.set("capacity_sweep", json!({"capacities": caps_swept, "operations": sweep_ops.load(std::sync::atomic::Ordering::Relaxed), "secs": t1.elapsed().as_secs_f64(), "history": "capacity+5 distinct puts, lookups of the first / last / power-of-two keys, overwrites in the full table, clear"}));
         cov.set("unrolled_histories_without_dedup", json!({"capacity": ucap, "depth": udepth, "histories": unrolled, "secs": t0.elapsed().as_secs_f64()}));
         cov.set("explanation", json!("reachable state space of the real table (deduplicated on its own queue+map contents) explored to fixpoint for each capacity with capacity+2 keys and 2 values; the table only compares keys for equality, so capacity+2 keys let 'present', 'evicted and re-inserted' and 'never seen' coexist"));
         cov.samples = SAMPLES.lock().unwrap().clone();
